@@ -563,6 +563,37 @@ func (s *Session) Apply(i int, st Step) {
 		if raw != nil {
 			s.ClientSendRaw(raw)
 		}
+	case "mqack": // the broker answers the gateway's most recent request with an acknowledgement of variant D (also malformed ones)
+		var last *mqttref.Pkt
+		s.evMu.Lock()
+		for j := len(s.tr.Events) - 1; j >= 0 && last == nil; j-- {
+			if e := s.tr.Events[j]; e.Dir == GB && e.MQ != nil {
+				switch e.MQ.Type {
+				case mqttref.SUBSCRIBE, mqttref.UNSUBSCRIBE, mqttref.PUBLISH, mqttref.PUBREL, mqttref.PUBREC:
+					last = e.MQ
+				}
+			}
+		}
+		s.evMu.Unlock()
+		if last != nil {
+			ack := mqttref.Pkt{MsgID: last.MsgID}
+			switch last.Type {
+			case mqttref.SUBSCRIBE:
+				ack.Type = mqttref.SUBACK
+				for k := int64(0); k < st.D%4; k++ { // 0, 1, 2 or 3 return codes
+					ack.Codes = append(ack.Codes, byte([]int{0, 1, 0x80, 2}[(st.D/4+k)%4]))
+				}
+			case mqttref.UNSUBSCRIBE:
+				ack.Type = []byte{mqttref.UNSUBACK, mqttref.SUBACK, mqttref.PUBACK, mqttref.PUBCOMP}[st.D%4]
+			case mqttref.PUBLISH:
+				ack.Type = []byte{mqttref.PUBACK, mqttref.PUBREC, mqttref.PUBCOMP, mqttref.SUBACK}[st.D%4]
+			case mqttref.PUBREL:
+				ack.Type = []byte{mqttref.PUBCOMP, mqttref.PUBREC, mqttref.PUBACK, mqttref.PUBREL}[st.D%4]
+			default:
+				ack.Type = []byte{mqttref.PUBREL, mqttref.PUBCOMP, mqttref.PUBACK, mqttref.PUBREL}[st.D%4]
+			}
+			s.BrokerSend(ack, false)
+		}
 	case "snclose": // the client's transport is closed by the peer (e.g. a DTLS close_notify): the gateway reads EOF
 		s.ev(Event{Dir: EV, What: "SNCLOSE"})
 		s.SN.Close()
